@@ -39,12 +39,17 @@ fn rlimit_nofile() -> libc::rlim_t {
 const OTHER_OPEN_FILES: isize = 3 + 2;
 
 #[cfg(unix)]
+// A task that holds a permit opens more than one file when the files are transformed:
+// the input file, the pipes to the child process, a temporary copy and a named pipe.
+const OPEN_FILES_PER_TASK: isize = 10;
+
+#[cfg(unix)]
 lazy_static! {
     // Globally track the number of opened files so many parallel operations do not raise
     // "Too many open files (os error 24)".
     pub static ref RLIMIT_OPEN_FILES: Arc<Semaphore> = Arc::new(Semaphore::new(std::cmp::max(
-        rlimit_nofile() as isize - OTHER_OPEN_FILES,
-        64 // fallback value
+        (rlimit_nofile() as isize - OTHER_OPEN_FILES) / OPEN_FILES_PER_TASK,
+        1 // at least one task must be able to run
     )));
 }
 
